@@ -12,6 +12,14 @@
 (* ctx check + tryAcquire (+ toHalfOpen) up to the entry of fn; End(c, out) is    *)
 (* the return of fn + record (+ toOpen / toClosed) + release.  The driver holds   *)
 (* fn, so exactly these two segments interleave between callers on the real code. *)
+(* With SplitAcquire = TRUE there is one more interleaving point, inside           *)
+(* tryAcquire: between the test `clock() < openUntil` having failed and            *)
+(* toHalfOpen() (hook "breaker.acquire.expired"): Begin parks the caller there     *)
+(* (pc = "exp") and Resume(c) performs toHalfOpen + the select.                    *)
+(* Defects = {} is the repaired design (test and transition are one atomic step);  *)
+(*   "StaleHalfOpen"  the code as it is: a resumed caller runs transitionTo(       *)
+(*                    HalfOpen) on whatever the state is by then, although its     *)
+(*                    test of openUntil is stale.                                  *)
 EXTENDS Integers, Sequences, FiniteSets, TLC
 
 CONSTANTS NB,        \* number of buckets (options.buckets)
@@ -22,14 +30,16 @@ CONSTANTS NB,        \* number of buckets (options.buckets)
           OpenTO,    \* options.openTimeout in ticks
           HalfMax,   \* options.halfOpenMaxCalls = cap(semCh)
           Callers,   \* logical caller threads
-          Outcomes   \* subset of {"ok","fail","cancel","deadline","panic"}
+          Outcomes,  \* subset of {"ok","fail","cancel","deadline","panic"}
+          SplitAcquire, \* BOOLEAN: model the interleaving point inside tryAcquire
+          Defects    \* subset of {"StaleHalfOpen"}
 
 VARIABLES state,      \* "closed" | "open" | "halfopen"
           openUntil,  \* tick at which Open ends
           win,        \* [buf : [0..NB-1 -> [succ, fail, start]], cursor, lu]
           sem,        \* len(semCh)
           now,        \* fake clock (ticks)
-          pc,         \* [Callers -> {"idle","in"}]   "in" = inside the user function
+          pc,         \* [Callers -> {"idle","exp","in"}]  "in" = inside the user function, "exp" = parked before toHalfOpen
           tok,        \* [Callers -> BOOLEAN]         holds a half-open token
           aw,         \* abstract window [ep, cur, cnt]
           last        \* last operation and its result (output only)
@@ -111,29 +121,52 @@ Select(c) ==
        /\ tok' = [tok EXCEPT ![c] = TRUE]
        /\ pc'  = [pc EXCEPT ![c] = "in"]
        /\ last' = [op |-> "Begin", c |-> c, out |-> "", res |-> "admitted", a |-> 0, b |-> 0]
-  ELSE /\ UNCHANGED <<sem, tok, pc>>
+  ELSE /\ UNCHANGED <<sem, tok>>
+       /\ pc'  = [pc EXCEPT ![c] = "idle"]
        /\ last' = [op |-> "Begin", c |-> c, out |-> "", res |-> "rejected", a |-> 0, b |-> 0]
 
-\* Execute up to the entry of fn: ctx.Err() == nil, tryAcquire
+\* ctx.Err() == nil, tryAcquire up to the entry of fn, as one atomic step
+BeginBody(c) ==
+  CASE state = "closed" ->
+         /\ pc' = [pc EXCEPT ![c] = "in"]
+         /\ last' = [op |-> "Begin", c |-> c, out |-> "", res |-> "admitted", a |-> 0, b |-> 0]
+         /\ UNCHANGED <<state, openUntil, win, sem, tok, aw>>
+    [] state = "open" /\ now < openUntil ->
+         /\ pc' = [pc EXCEPT ![c] = "idle"]
+         /\ last' = [op |-> "Begin", c |-> c, out |-> "", res |-> "rejected", a |-> 0, b |-> 0]
+         /\ UNCHANGED <<state, openUntil, win, sem, tok, aw>>
+    [] state = "open" /\ ~(now < openUntil) ->
+         \* toHalfOpen: transitionTo(HalfOpen) resets the window, then the select
+         /\ state' = "halfopen"
+         /\ win' = HardReset(now)
+         /\ aw' = AReset(now)
+         /\ Select(c)
+         /\ UNCHANGED openUntil
+    [] state = "halfopen" ->
+         /\ Select(c)
+         /\ UNCHANGED <<state, openUntil, win, aw>>
+
+\* Execute up to the entry of fn (or, with SplitAcquire, up to the hook before toHalfOpen)
 Begin(c) ==
   /\ pc[c] = "idle"
-  /\ CASE state = "closed" ->
-            /\ pc' = [pc EXCEPT ![c] = "in"]
-            /\ last' = [op |-> "Begin", c |-> c, out |-> "", res |-> "admitted", a |-> 0, b |-> 0]
-            /\ UNCHANGED <<state, openUntil, win, sem, tok, aw>>
-       [] state = "open" /\ now < openUntil ->
-            /\ last' = [op |-> "Begin", c |-> c, out |-> "", res |-> "rejected", a |-> 0, b |-> 0]
-            /\ UNCHANGED <<state, openUntil, win, sem, pc, tok, aw>>
-       [] state = "open" /\ ~(now < openUntil) ->
-            \* toHalfOpen: transitionTo(HalfOpen) resets the window, then the select
-            /\ state' = "halfopen"
-            /\ win' = HardReset(now)
-            /\ aw' = AReset(now)
-            /\ Select(c)
-            /\ UNCHANGED openUntil
-       [] state = "halfopen" ->
-            /\ Select(c)
-            /\ UNCHANGED <<state, openUntil, win, aw>>
+  /\ IF SplitAcquire /\ state = "open" /\ ~(now < openUntil)
+     THEN /\ pc' = [pc EXCEPT ![c] = "exp"]
+          /\ last' = [op |-> "Park", c |-> c, out |-> "", res |-> "", a |-> 0, b |-> 0]
+          /\ UNCHANGED <<state, openUntil, win, sem, tok, aw>>
+     ELSE BeginBody(c)
+  /\ UNCHANGED now
+
+\* the caller parked before toHalfOpen continues: toHalfOpen() and the select
+Resume(c) ==
+  /\ pc[c] = "exp"
+  /\ IF "StaleHalfOpen" \in Defects
+     THEN \* transitionTo(HalfOpen) as written: only "already half-open" stops it
+          /\ IF state # "halfopen"
+             THEN state' = "halfopen" /\ win' = HardReset(now) /\ aw' = AReset(now)
+             ELSE UNCHANGED <<state, win, aw>>
+          /\ Select(c)
+          /\ UNCHANGED openUntil
+     ELSE BeginBody(c)      \* repaired: the admission is decided on the state as it is now
   /\ UNCHANGED now
 
 \* Execute with a context that is already done: nothing is touched
@@ -180,7 +213,7 @@ Tick ==
   /\ last' = [op |-> "Tick", c |-> "", out |-> "", res |-> "", a |-> 0, b |-> 0]
   /\ UNCHANGED <<state, openUntil, win, sem, pc, tok, aw>>
 
-Next == \/ \E c \in Callers : Begin(c) \/ Pre(c)
+Next == \/ \E c \in Callers : Begin(c) \/ Pre(c) \/ Resume(c)
         \/ \E c \in Callers, o \in Outcomes : End(c, o)
         \/ MetricsOp \/ Tick
 
@@ -192,7 +225,7 @@ States == {"closed", "open", "halfopen"}
 TypeOK == /\ state \in States
           /\ win.cursor \in 0..NB-1
           /\ sem \in 0..HalfMax
-          /\ \A c \in Callers : tok[c] => pc[c] = "in"
+          /\ \A c \in Callers : pc[c] \in {"idle", "exp", "in"} /\ (tok[c] => pc[c] = "in")
 
 \* C47(c): the semaphore counts exactly the callers holding a token, never more than HalfMax
 SemInv == sem = Cardinality({c \in Callers : tok[c]}) /\ sem <= HalfMax
@@ -226,7 +259,8 @@ RecordRule ==
 \* the first call at/after openUntil moves to half-open with a fresh window
 OpenRule ==
   [][(last'.op = "Begin" /\ state = "open") =>
-        IF now < openUntil THEN last'.res = "rejected" /\ state' = "open" /\ UNCHANGED <<win, sem, pc, tok, openUntil>>
+        IF now < openUntil THEN /\ last'.res = "rejected" /\ state' = "open" /\ UNCHANGED <<win, sem, tok, openUntil>>
+                                /\ pc' = [pc EXCEPT ![last'.c] = "idle"]
         ELSE state' = "halfopen" /\ ASucc(aw') + AFail(aw') = 0]_vars
 
 \* C47(c): in half-open (including the transition) a call is admitted iff a token is free
